@@ -23,6 +23,9 @@ func schemeObj(s servlab.C09Scheme) map[string]any {
 		return map[string]any{"type": "http", "scheme": "basic"}
 	case "bearer":
 		return map[string]any{"type": "http", "scheme": "bearer"}
+	case "oidc":
+		// a scheme type ogen does not implement: under ignore_not_implemented every alternative that names it is dropped
+		return map[string]any{"type": "openIdConnect", "openIdConnectUrl": "https://example.com/.well-known/openid-configuration"}
 	case "oauth2":
 		return map[string]any{"type": "oauth2", "flows": map[string]any{"implicit": map[string]any{"authorizationUrl": "https://example.com/auth", "scopes": map[string]any{"read": "r", "write": "w", "admin": "a"}}}}
 	}
@@ -146,6 +149,12 @@ func Main(args []string) int {
 		n++
 		sp.Key = fmt.Sprintf("p%04d", n)
 		sp.Convenient = n%3 == 0
+		unimplemented := false
+		for _, sc := range sp.Schemes {
+			if sc.Kind == "oidc" {
+				unimplemented = true
+			}
+		}
 		for _, o := range ops {
 			eff := o.alts
 			switch o.mode {
@@ -154,12 +163,29 @@ func Main(args []string) int {
 			case "none":
 				eff = nil
 			}
-			sp.Ops = append(sp.Ops, servlab.C09Op{Path: o.path, Mode: o.mode, Alts: eff, Scopes: o.scopes})
+			// an alternative that names an unimplemented scheme can never be satisfied by this server
+			var live [][]int
+			for _, a := range eff {
+				ok := true
+				for _, s := range a {
+					if sp.Schemes[s].Kind == "oidc" {
+						ok = false
+					}
+				}
+				if ok {
+					live = append(live, a)
+				}
+			}
+			sp.Ops = append(sp.Ops, servlab.C09Op{Path: o.path, Mode: o.mode, Alts: live, Scopes: o.scopes, Unsatisfiable: len(eff) > 0 && len(live) == 0})
 		}
 		specs = append(specs, sp)
 		docs = append(docs, render(&sp, global, ops))
 		f := append([]string{"paths/server", "paths/client"}, feats...)
-		optsList = append(optsList, gen.Options{Generator: gen.GenerateOptions{Features: genlab.Features(f...)}})
+		o := gen.Options{Generator: gen.GenerateOptions{Features: genlab.Features(f...)}}
+		if unimplemented {
+			o.Generator.IgnoreNotImplemented = []string{"all"}
+		}
+		optsList = append(optsList, o)
 	}
 
 	// exhaustive: all 255 structures over 3 schemes, for three kind rotations
@@ -177,6 +203,27 @@ func Main(args []string) int {
 			ops = append(ops, o)
 		}
 		add(sp, nil, ops)
+	}
+	// alternatives naming a scheme type ogen does not implement (openIdConnect), generated with ignore_not_implemented:
+	// all 255 structures over {header, oidc, cookie}, and a global requirement with such an alternative
+	{
+		kinds := []string{"header", "oidc", "cookie"}
+		sp := servlab.C09Spec{Schemes: mkSchemes(kinds), Exhaustive: true, Client: false}
+		var ops []rawOp
+		for i, st := range structs {
+			ops = append(ops, rawOp{path: fmt.Sprintf("/u%d", i), mode: "op", alts: st, scopes: map[int][]string{}})
+		}
+		add(sp, nil, ops)
+		kinds = []string{"oidc", "header", "bearer", "cookie"}
+		ops = []rawOp{
+			{path: "/inherit", mode: "global"},
+			{path: "/none", mode: "none"},
+			{path: "/only", mode: "op", alts: [][]int{{0}}},
+			{path: "/with", mode: "op", alts: [][]int{{0, 1}}},
+			{path: "/mixed", mode: "op", alts: [][]int{{1, 0}, {2, 3}, {1}}},
+			{path: "/later", mode: "op", alts: [][]int{{3}, {2, 0}, {2}}},
+		}
+		add(servlab.C09Spec{Schemes: mkSchemes(kinds), Exhaustive: true, Client: false}, [][]int{{0, 1}, {1, 3}}, ops)
 	}
 	// global / override / none
 	{
